@@ -69,6 +69,7 @@ type RPC struct {
 	Shape  string `json:"shape"`            // unary cstream sstream bidi
 	Via    string `json:"via,omitempty"`    // unary only: "invoke" (default) or "stream"
 	Method string `json:"method,omitempty"` // override of the full method name (disturbers)
+	Alt    bool   `json:"alt,omitempty"`    // call the same-named method of the second registered service verif.Alt (its own handlers) instead of verif.Svc
 	Chan   string `json:"chan,omitempty"`   // "" = default channel; "key:<k>" = KeyAsChannel(k); "tunnel:<i>" = that tunnel's channel
 	AfterEvent int `json:"after_event,omitempty"` // the call may start only after event #(AfterEvent-1) has fired
 	Role    string `json:"role,omitempty"`       // bystander | disturber:<kind> | victim | probe (used by oracles)
